@@ -20,8 +20,11 @@
    intermediate map it is what links it into the tree, after an error it stores
    the unchanged child.  Every string / byte slice / map carries an [origin]:
    who allocated its memory.  Inputs are [OCaller]; what BufferizeString /
-   Bufferize hand out is [OBuf]; what make() returns is [OMake].  Freshness of
-   a copy = no [OCaller] memory reachable from it.
+   Bufferize hand out is [OBuf]; what make() returns is [OMake]; [OOther] is
+   caller memory of a second value (the destination passed to CopyTo).  No
+   method looks at an origin, so running it on the source relabelled to
+   [OCaller] everywhere ([to_caller]) gives the same result, and freshness of a
+   copy = no [OCaller] memory reachable from it.
 
    Versions.  [fx = true] is the code after the three "fix:" commits recorded
    in KNOWN_FINDINGS (nil guards in indir1/indir2, Capacity recursing into
@@ -33,7 +36,7 @@ Import ListNotations.
 Local Open Scope string_scope.
 
 (* ---------- values ---------- *)
-Inductive origin := OCaller | OBuf | OMake.
+Inductive origin := OCaller | OBuf | OMake | OOther.
 Inductive form := FVal | FPtr | FPtr2.
 (* nil holders: nil map; nil *map; *map -> nil map; nil **map; **map -> nil *map; **map -> *map -> nil map *)
 Inductive nilform := NMap | NPtr | NPtrMap | NPtr2 | NPtr2Ptr | NPtr2PtrMap.
@@ -385,6 +388,16 @@ Fixpoint fresh (x : any) : bool :=
   | AMap o _ es => match o with OCaller => false | _ => true end &&
                    (fix go (l : entries) : bool := match l with [] => true | (_, v) :: r => fresh v && go r end) es
   | _ => true
+  end.
+
+(* every piece of memory of x relabelled as the caller's *)
+Fixpoint to_caller (x : any) : any :=
+  match x with
+  | AStr _ s => AStr OCaller s
+  | ABytes _ d e => ABytes OCaller d e
+  | AMap _ f es => AMap OCaller f ((fix go (l : entries) : entries :=
+                                     match l with [] => [] | (k, v) :: r => (k, to_caller v) :: go r end) es)
+  | _ => x
   end.
 
 Definition is_map (x : any) : bool := match x with AMap _ _ _ | ANilMap _ => true | _ => false end.
